@@ -51,6 +51,8 @@ def jobs(tier, seed):
         out.append(('read-sequences.%d' % part, 'h_reads', dict(part=part, parts=4)))
     for kind in ('rx1g', 'rx0', 'tx0', 'tx1'):
         out.append(('reappend.' + kind, 'h_reappend', dict(kind=kind)))
+    for sq in (['rx1n', 'tx0'], ['rx1n', 'rx1n', 'rx1n']):
+        out.append(('rw-iterator.' + '+'.join(sq), 'h_rw', dict(seq=sq, as_iter=True)))
     # truncation
     tseqs = [[a] for a in kinds] + ([[a, b] for a in kinds[:3] for b in kinds[:3]] if tier == 'quick' else [[a, b] for a in kinds for b in kinds[:5]])
     tseqs += [tri[0], tri[-1]] if tier == 'quick' else rnd.sample(tri, 20)
@@ -105,7 +107,7 @@ def file_items(f):
     return list(f.getvalue()) if isinstance(f, io.BytesIO) else list(f.items)
 
 
-def h_rw(ctx, seq):
+def h_rw(ctx, seq, as_iter=False):
     T = env.load(ctx, 'data_msg', 'data_dump')
     env.std_env(ctx, T)
     n = len(seq)
@@ -114,7 +116,7 @@ def h_rw(ctx, seq):
         f = new_file(ctx)
         ddf = T.data_dump.DATADumpFile(f)
         with ctx.no_raise('append:no-exception'):
-            ddf.append_all(msgs)
+            ddf.append_all(iter(msgs) if as_iter else msgs)        # any iterable of messages, one-shot ones included
         ctx.check('file.len', len(file_items(f)) == sum(rec_len(k) for k in seq))
         with ctx.no_raise('parse_all:no-exception'):
             got = ddf.parse_all()
